@@ -33,6 +33,119 @@ def num_disc(*parents, observed=None):
     return np.asarray(d).reshape(-1) if np.ndim(d) else d
 
 
+def num_sim2(*params, batch_size=1, random_state=None):
+    x = 2.0 * random_state.normal(size=batch_size) + 0.25
+    for p in params:
+        x = x - np.asarray(p, dtype=float)
+    return x
+
+
+def num_sim3(*params, batch_size=1, random_state=None):
+    x = random_state.uniform(size=batch_size) * random_state.normal(size=batch_size)
+    for p in params:
+        x = x + 0.5 * np.asarray(p, dtype=float)
+    return x
+
+
+def num_sum2(*parents):
+    x = 0.5
+    for p in parents:
+        x = x + np.abs(np.asarray(p, dtype=float))
+    return x
+
+
+def num_sum3(*parents):
+    x = 0.0
+    for p in parents:
+        x = x + np.cos(np.asarray(p, dtype=float))
+    return x * 3.0
+
+
+def num_op2(*parents):
+    x = 2.0
+    for p in parents:
+        x = x * (1.0 + np.tanh(np.asarray(p, dtype=float)))
+    return x
+
+
+def num_op3(*parents):
+    x = -1.0
+    for p in parents:
+        x = x + np.asarray(p, dtype=float) / 3.0
+    return x
+
+
+def num_disc2(*parents, observed=None):
+    d = 0.0
+    for p, o in zip(parents, observed):
+        d = d + (np.asarray(p, dtype=float) - np.asarray(o, dtype=float)) ** 2
+    return np.asarray(d).reshape(-1) if np.ndim(d) else d
+
+
+NUM_FUNCS = dict(Simulator=(num_sim, num_sim2, num_sim3), Summary=(num_sum, num_sum2, num_sum3),
+                 Operation=(num_op, num_op2, num_op3), Discrepancy=(num_disc, num_disc2, num_disc))
+NUM_FAMILIES = ('normal', 'uniform', 'expon', 'laplace', 'logistic')
+
+
+# ---- histories on one model object: run-time resolution of abstract steps against the CURRENT graph ----
+def node_class(m, n):
+    c = m.source_net.nodes[n]['attr_dict'].get('_class')
+    return getattr(c, '__name__', '')
+
+
+def pick(xs, p):
+    return xs[min(int(p * len(xs)), len(xs) - 1)] if xs else None
+
+
+def non_descendants(m, n):
+    import networkx as nx
+    bad = nx.descendants(m.source_net, n) | {n}
+    return [x for x in sorted(m.source_net.nodes()) if x not in bad]
+
+
+def pick_parents(cands, ppicks):
+    out = []
+    for p in ppicks:
+        x = pick(cands, p)
+        if x is not None and x not in out:
+            out.append(x)
+    return out
+
+
+def rebuild(m, rnd):
+    """A freshly built model object with the nodes (same states), edges and observed data of m's CURRENT graph,
+    inserted through the public GraphicalModel API in a shuffled order; nothing was ever computed on it."""
+    import elfi
+    g = m.source_net
+    f = elfi.ElfiModel(name=m.name)
+    nodes = [(n, d['attr_dict']) for n, d in g.nodes(data=True)]
+    rnd.shuffle(nodes)
+    for n, st in nodes:
+        f.add_node(n, dict(st))
+    edges = [(u, v, d['param']) for u, v, d in g.edges(data=True)]
+    rnd.shuffle(edges)
+    for u, v, par in edges:
+        f.add_edge(u, v, par)
+    obs = list(m.observed.items())
+    rnd.shuffle(obs)
+    f.observed = dict(obs)
+    return f
+
+
+def resolve_outputs(m, st, resolved):
+    """outputs of a generate step: a selection is resolved against the graph at its first use and keeps its names
+    afterwards (restricted to the nodes that still exist), so that the same outputs are requested again after edits"""
+    sel = st['sel']
+    if sel is None:
+        return None
+    key = json.dumps(sel)
+    if key not in resolved:
+        names = sorted(m.source_net.nodes())
+        resolved[key] = pick_parents(names, sel)
+    outs = [n for n in resolved[key] if m.has_node(n)]
+    return outs or None
+
+
 def build_numeric(spec, order=None):
     import elfi
     m = elfi.ElfiModel(name='num')
@@ -86,7 +199,15 @@ class C02(PropCheck):
             'generate calls; plus numeric twins of the same graphs compared bit for bit (tobytes) between repeated runs, insertion '
             'orders, native vs multiprocessing client, BatchHandler histories sharing one context vs fresh contexts, and repeated '
             'seeded Rejection runs; boundary seeds 0, 1, 2^31-1, 2^32-1 in 30% of the cases; every third case a seeded Rejection and a 3-population SMC run on '
-            'the native client vs a scripted client keeping 2-5 batches in flight (scripted is_ready answers, lazy/eager/shuffled execution); non-trivial = at least two stochastic operations ran; distinct by (spec, order2, outputs, seed)')
+            'the native client vs a scripted client keeping 2-5 batches in flight (scripted is_ready answers, lazy/eager/shuffled execution); '
+            'HISTORIES ON ONE MODEL OBJECT (every case, on the recording model and on its numeric twin, after the runs above): 5-11 steps mixing '
+            'generate calls (1-3 output selections that recur, 1-2 seeds, 3 batch sizes, np.random / unrelated generate calls in between) with '
+            'edits through the public API resolved against the current graph - become onto a new node of the same kind with the same parents '
+            '(node and edge counts unchanged: other prior family / simulator / summary / operation / constant value) or with other parents or another kind, '
+            'observed data changes, uses_meta on/off, added nodes, removed nodes, keyword edges, parameter_names; every generate call is compared with the same call on a '
+            'freshly built model object holding the current graph (nodes, edges, observed data inserted in shuffled order through add_node/add_edge): '
+            'Coq step_agree / step_ok for values and call order, python-side for the draws and bit for bit on the numeric twin; '
+            'non-trivial = at least two stochastic operations ran; distinct by (spec, order2, outputs, seed)')
     trusted = ('numpy RandomState(seed) is a pure function of the seed; multiprocessing transport (pickle) is the identity on nets (sampled with 2 workers)',)
 
     def generate(self):
@@ -102,22 +223,213 @@ class C02(PropCheck):
             self.bump('reordered=%s' % (order2 != names))
             seed = r.choice([0, 0, 1, 2 ** 31 - 1, 2 ** 32 - 1]) if r.random() < 0.3 else r.randrange(2 ** 31)
             self.bump('seed=%s' % ('boundary' if seed in (0, 1, 2 ** 31 - 1, 2 ** 32 - 1) else 'random'))
-            yield dict(spec=spec, order2=order2, outputs=outputs, seed=seed, batch_size=r.choice([1, 2, 5]),
+            hist = self._gen_hist(r)
+            yield dict(spec=spec, order2=order2, outputs=outputs, seed=seed, batch_size=r.choice([1, 2, 5]), hist=hist,
                        oracle=[r.random() < 0.45 for _ in range(r.randint(0, 60))], maxp=r.randint(2, 5),
                        client_mode=r.choice(['lazy', 'lazy', 'eager', 'shuffle']), samplers=(i % 3 == 0),
                        noise=r.randrange(2 ** 31), batch_indices=[r.randrange(0, 6) for _ in range(r.randint(2, 5))],
                        numeric=(i % 2 == 0), rejection=(i % 7 == 0), mp=(i % 5 == 0))
 
+    def _gen_hist(self, r):
+        """abstract history on ONE model object: generate calls (a few output selections and seeds, so that the same
+        request recurs) interleaved with edits through the public API; names are resolved at run time against the
+        current graph (floats in [0,1) index the sorted node names)"""
+        k = r.randint(4, 10)
+        nsel = r.randint(1, 3)
+        sels = [None if r.random() < 0.4 else [r.random() for _ in range(r.randint(1, 5))] for _ in range(nsel)]
+        nseeds = 1 if r.random() < 0.6 else 2
+
+        def gen():
+            return dict(op='gen', sel=sels[r.choice([0, 0] + list(range(nsel)))], seed=r.choice([0, 0] + list(range(nseeds))),
+                        bs=r.choice([0, 0, 1, 3]), perturb=r.random() < 0.25)
+        steps = [gen()]
+        while len(steps) < k:
+            c = r.random()
+            if c < 0.38:
+                st = gen()
+            elif c < 0.62:
+                st = dict(op='become', pick=r.random(), mode='same' if r.random() < 0.65 else 'other', keep_kind=r.random() < 0.85,
+                          kind=r.choice(['Operation', 'Prior', 'Simulator', 'Summary', 'Constant']),
+                          ppicks=[r.random() for _ in range(r.randint(0, 3))], obs=r.choice(['keep', 'keep', 'new', 'none']))
+            elif c < 0.72:
+                st = dict(op='observed', pick=r.random())
+            elif c < 0.78:
+                st = dict(op='meta', pick=r.random(), val=r.random() < 0.7)
+            elif c < 0.86:
+                st = dict(op='add', kind=r.choice(['Operation', 'Prior', 'Simulator', 'Summary', 'Constant', 'Discrepancy']),
+                          ppicks=[r.random() for _ in range(r.randint(0, 3))], obs=r.random() < 0.5)
+            elif c < 0.92:
+                st = dict(op='remove', pick=r.random(), leaf=r.random() < 0.7)
+            elif c < 0.96:
+                st = dict(op='edge', pick=r.random(), ppick=r.random())
+            else:
+                st = dict(op='params', ppicks=[r.random() for _ in range(r.randint(0, 3))])
+            steps.append(st)
+        steps.append(gen())
+        for st in steps:
+            self.bump('hist_op=' + st['op'] + ('/' + st['mode'] if st['op'] == 'become' else ''))
+        self.bump('hist_len=%d' % len(steps))
+        return dict(steps=steps, seeds=[r.randrange(2 ** 31) for _ in range(nseeds - 1)])
+
+    # -- histories on one model object -------------------------------------------------------------
+    def _edit(self, m, st, k, rec=None):
+        """one edit through the public API on the CURRENT graph of m; rec given = symbolic model (recording operations),
+        otherwise the numeric twin.  Returns a short description (None = nothing applicable)."""
+        import elfi
+        names = sorted(n for n in m.source_net.nodes())
+        if not names:
+            return None
+        op = st['op']
+
+        def make(kind, tmp, opname, parents, observed, ver):
+            ps = [m[x] for x in parents]
+            if kind == 'Constant':
+                return elfi.Constant((500 + k) if rec is not None else (0.5 + k) / 7.0, name=tmp, model=m)
+            if kind == 'Prior':
+                if rec is not None:
+                    return elfi.Prior(RecDist(rec, opname), *ps, name=tmp, model=m)
+                return elfi.Prior(NUM_FAMILIES[ver % len(NUM_FAMILIES)], *ps[:1], name=tmp, model=m)
+            f = rec_op(rec, opname) if rec is not None else NUM_FUNCS[kind][ver % 3]
+            if kind == 'Operation':
+                return elfi.Operation(f, *ps, name=tmp, model=m)
+            if kind == 'Simulator':
+                return elfi.Simulator(f, *ps, name=tmp, model=m, observed=observed)
+            if kind == 'Summary':
+                return elfi.Summary(f, *ps, name=tmp, model=m, observed=observed)
+            if kind == 'Discrepancy':
+                return elfi.Discrepancy(f, *ps, name=tmp, model=m)
+            raise ValueError(kind)
+
+        def new_obs():
+            return (3000 + k) if rec is not None else np.array([(3000 + k) / 1000.0])
+        if op == 'become':
+            a = pick(names, st['pick'])
+            old_kind = node_class(m, a)
+            kind = old_kind if (st['keep_kind'] or old_kind in ('Discrepancy', 'Constant')) else st['kind']
+            if kind not in ('Operation', 'Prior', 'Simulator', 'Summary', 'Constant', 'Discrepancy'):
+                return None
+            parents = list(m.get_parents(a)) if st['mode'] == 'same' else pick_parents(non_descendants(m, a), st['ppicks'])
+            if kind in ('Summary', 'Discrepancy') and not parents:
+                return None
+            observed = None
+            if kind in ('Simulator', 'Summary'):
+                observed = (m.observed.get(a) if st['obs'] == 'keep' else new_obs() if st['obs'] == 'new' else None)
+            new = make(kind, 'T%d_%s' % (k, a), '%s_v%d' % (a, k), parents, observed, k)
+            m[a].become(new)
+            return 'become %s' % kind
+        if op == 'observed':
+            cands = [n for n in names if m.source_net.nodes[n]['attr_dict'].get('_observable')]
+            a = pick(cands, st['pick'])
+            if a is None:
+                return None
+            m.observed[a] = new_obs()
+            return 'observed'
+        if op == 'meta':
+            if rec is None:
+                return None
+            a = pick([n for n in names if node_class(m, n) in ('Operation', 'Simulator', 'Summary')], st['pick'])
+            if a is None:
+                return None
+            m[a].uses_meta = st['val']
+            return 'meta'
+        if op == 'add':
+            kind = st['kind']
+            parents = pick_parents(names, st['ppicks'])
+            if kind in ('Summary', 'Discrepancy') and not parents:
+                return None
+            if kind == 'Discrepancy' and rec is None:
+                parents = [x for x in parents if m.source_net.nodes[x]['attr_dict'].get('_observable')]
+                if not parents:
+                    return None
+            nm = 'N%d' % k
+            make(kind, nm, nm, parents, new_obs() if (st['obs'] and kind in ('Simulator', 'Summary')) else None, k)
+            return 'add %s' % kind
+        if op == 'remove':
+            leaves = [n for n in names if m.source_net.out_degree(n) == 0]
+            a = pick(leaves if (st['leaf'] and leaves) else names, st['pick'])
+            m.remove_node(a)
+            return 'remove'
+        if op == 'edge':
+            if rec is None:
+                return None
+            b = pick([n for n in names if node_class(m, n) in ('Operation', 'Simulator', 'Summary')], st['pick'])
+            if b is None:
+                return None
+            a = pick([x for x in non_descendants(m, b) if not m.source_net.has_edge(x, b)], st['ppick'])
+            if a is None:
+                return None
+            m.add_edge(a, b, 'kw_' + a)
+            return 'edge'
+        if op == 'params':
+            m.parameter_names = pick_parents(names, st['ppicks'])
+            return 'params'
+        raise ValueError(op)
+
+    def _history(self, case, m, rec=None):
+        """run the abstract history on the ONE model object m; at every generate step also build a fresh equivalent of the
+        current graph and generate on it with the same arguments"""
+        import elfi
+        h = case['hist']
+        seeds = [case['seed']] + list(h['seeds'])
+        rnd = random.Random(case['noise'] + (1 if rec is None else 2))
+        resolved = {}
+        seen = {}
+        steps = []
+        for k, st in enumerate(h['steps']):
+            if st['op'] != 'gen':
+                try:
+                    what = self._edit(m, st, k, rec)
+                    self.bump('hist_%s_edit=%s' % ('sym' if rec is not None else 'num', what or 'not-applicable'))
+                except Exception as e:
+                    self.bump('hist_%s_edit=raised' % ('sym' if rec is not None else 'num'))
+                continue
+            outputs = resolve_outputs(m, st, resolved)
+            seed = seeds[st['seed']]
+            bs = case['batch_size'] + st['bs']
+            if st['perturb']:
+                self._perturb(case)
+            g = m.source_net
+            key = (None if outputs is None else tuple(sorted(outputs)), seed, bs, g.number_of_nodes(), g.number_of_edges())
+            sig = snet_of_model(m) if rec is not None else repr(sorted((n, id(d['attr_dict'].get('_operation')), repr(d['attr_dict'].get('_output')))
+                                                                        for n, d in g.nodes(data=True))) + repr(sorted(g.edges(data='param'))) + repr(sorted((a, repr(b)) for a, b in m.observed.items()))
+            if key in seen and seen[key] != sig:
+                self.bump('hist_%s_gen=same request and graph size as an earlier call, graph edited in between' % ('sym' if rec is not None else 'num'))
+            seen[key] = sig
+            all_names = list(g.nodes())
+            fresh = rebuild(m, rnd)
+            if rec is not None:
+                r_obj, c_obj = self._sym_gen(m, rec, bs, outputs, seed)
+                r_new, c_new = self._sym_gen(fresh, rec, bs, outputs, seed)
+                self.bump('hist_sym_gen=' + ('returned' if r_obj.get('ok') else 'raised'))
+                steps.append(dict(k=k, outputs=outputs, seed=seed, bs=bs, obj=r_obj, fresh=r_new,
+                                  coq='{| h_src := %s; h_fresh := %s; h_outputs := %s; h_impl := %s; h_impl_fresh := %s |}' % (
+                                      sig, snet_of_model(fresh), clist([cstr(x) for x in (all_names if outputs is None else outputs)]),
+                                      c_obj, c_new)))
+            else:
+                steps.append(dict(k=k, outputs=outputs, seed=seed, bs=bs, obj=self._num_gen(m, bs, outputs, seed),
+                                  fresh=self._num_gen(fresh, bs, outputs, seed)))
+                self.bump('hist_num_gen=' + ('raised' if 'raised' in steps[-1]['obj'] else 'returned'))
+        return steps
+
+    def _num_gen(self, m, bs, outputs, seed):
+        try:
+            return blob(m.generate(bs, outputs, seed=seed))
+        except Exception as e:
+            return dict(raised=type(e).__name__)
+
     # -- symbolic runs ---------------------------------------------------------------------------
-    def _sym_run(self, m, rec, case, outputs):
+    def _sym_gen(self, m, rec, bs, outputs, seed):
         rec.reset()
         try:
-            res = m.generate(case['batch_size'], outputs, seed=case['seed'])
+            res = m.generate(bs, outputs, seed=seed)
             outs = sorted(res.items())
             coq = 'ImplOk %s %s' % (clist(['(%s, %s)' % (cstr(k), cvalue(v)) for k, v in outs]), clist([cstr(x) for x in rec.log]))
             return dict(ok=True, log=list(rec.log), draws=list(rec.draws), outs=[[k, jvalue(v)] for k, v in outs]), coq
         except Exception as e:
             return dict(ok=False, error='%s: %s' % (type(e).__name__, str(e)[:200])), 'ImplErr'
+
+    def _sym_run(self, m, rec, case, outputs):
+        return self._sym_gen(m, rec, case['batch_size'], outputs, case['seed'])
 
     def _perturb(self, case):
         """things that must not matter: global generator state, unrelated computations"""
@@ -172,6 +484,10 @@ class C02(PropCheck):
                    coq=dict(src1=snet_of_model(m1), src2=snet_of_model(m2), impl1=c1, impl2=c2,
                             outputs=clist([cstr(x) for x in (all_names if outputs is None else outputs)])),
                    numeric=None)
+        # history of generate calls and edits on the ONE object m1 (which has generated above)
+        hist = self._history(case, m1, rec1)
+        out['hist'] = [dict((k, v) for k, v in st.items() if k != 'coq') for st in hist]
+        out['coq']['hist'] = clist([st['coq'] for st in hist])
         if case.get('samplers'):
             out['samplers'] = self._samplers(case)
         if case['numeric']:
@@ -236,7 +552,14 @@ class C02(PropCheck):
                 elfi.set_client(native.Client())
         if case['rejection']:
             problems += self._rejection(case, ma, mb)
-        return dict(problems=problems, n_outputs=len(ref))
+        # history of generate calls and edits on the ONE object ma (after everything above was computed on it)
+        elfi.set_client(native.Client())
+        hist_problems = []
+        for st in self._history(case, ma):
+            if st['obj'] != st['fresh']:
+                hist_problems.append('step %d: generate(%d, %r, seed=%d) on the edited object differs from a freshly built model with the same graph'
+                                     % (st['k'], st['bs'], st['outputs'], st['seed']))
+        return dict(problems=problems, n_outputs=len(ref), hist_problems=hist_problems)
 
     def _rejection(self, case, ma, mb):
         import elfi
@@ -322,6 +645,13 @@ class C02(PropCheck):
             fails.append(('generator_seed', '; '.join(out['gen_problems'][:2])))
         if out['numeric'] and out['numeric'].get('problems'):
             fails.append(('bit_identical', '; '.join(out['numeric']['problems'])))
+        if out['numeric'] and out['numeric'].get('hist_problems'):
+            fails.append(('history_bit_identical', '; '.join(out['numeric']['hist_problems'][:3])))
+        for st in out.get('hist', []):
+            if st['obj'].get('ok') and st['fresh'].get('ok') and st['obj']['draws'] != st['fresh']['draws']:
+                fails.append(('history_draws', 'step %d: draws from the batch generator on the edited object differ from the fresh build: %r vs %r'
+                              % (st['k'], st['obj']['draws'][:4], st['fresh']['draws'][:4])))
+                break
         return fails
 
     def nontrivial(self, case, out):
@@ -331,8 +661,8 @@ class C02(PropCheck):
 
     def to_coq(self, case, out):
         c = out['coq']
-        return '{| d_src1 := %s; d_src2 := %s; d_outputs := %s; d_impl1 := %s; d_impl2 := %s |}' % (
-            c['src1'], c['src2'], c['outputs'], c['impl1'], c['impl2'])
+        return '{| d_src1 := %s; d_src2 := %s; d_outputs := %s; d_impl1 := %s; d_impl2 := %s; d_hist := %s |}' % (
+            c['src1'], c['src2'], c['outputs'], c['impl1'], c['impl2'], c['hist'])
 
 
 if __name__ == '__main__':
